@@ -73,6 +73,13 @@ def gen_sessions(rng, count):
     out.append(dict(id="e2", tab=4, file=None, expr=None, stdin=["w = 2;;w * 3", ";w", "w;;", ""], end="exit", after=[]))
     out.append(dict(id="r8", tab=4, file="poly(x) = x*x + 1\ncpa = poly\ncpb = poly\ncpc = poly\ncpd = poly\n", expr="delete poly; cpa; delete cpb; cpc(1,2)", stdin=None))
     out.append(dict(id="r9", tab=4, file=None, expr=None, stdin=["poly(x) = x*x + 1", "cpa = poly", "cpb = poly", "cpc = poly", "delete poly", "delete cpa(x)", "cpb"], end=None, after=[]))
+    out.append(dict(id="w0", tab=4, file=None, expr="fib(0) = 0; fib(1) = 1; fib(k) = fib(k-1) + fib(k-2); fib(26); 1 + 1", stdin=None))
+    out.append(dict(id="x0", tab=4, file=None, expr=None, stdin=["exit = 5", "exit * 2", "Exit + 1", "EXIT as km", "exit_code = 1", "exits", "quit", "q", "e", "ex", "exi", "bye", "x = exit", "x"], end="exit", after=["x"]))
+    out.append(dict(id="x1", tab=4, file=None, expr=None, stdin=["w = 1  ", "1 +  ", "(w + 1  ", "\tw\t", "   1/0", "\t\t2 + nope", " \t #"], end=None, after=[]))
+    out.append(dict(id="x2", tab=8, file="w = 2\n(w + 1  ", expr="1 +  ", stdin=None))
+    out.append(dict(id="x3", tab=8, file="w = 2\n(w + 1  \n", expr="1 +\t", stdin=None))
+    out.append(dict(id="x4", tab=4, file="w = 2 \x0c", expr="w", stdin=None))
+    out.append(dict(id="x5", tab=4, file=None, expr="w = 2 \u00a0", stdin=None))
     out.append(dict(id="r5", tab=4, file="a1 = 1\nb1 = 2\nc1 = 3\nd1 = [1,2;3,4]\ne1 = 5 km\nf1(x) = x\n", expr="clear; a1; b1; c1; d1; e1; f1; pi; sin", stdin=None))
     out.append(dict(id="c6", tab=4, file=None, expr=None, stdin=[], end=None, after=[]))
     return out
